@@ -17,6 +17,9 @@ Binding (fn)  spec/Gen_WAL.tla enumerates append histories (kind x items per blo
         functions, metadata refresh), observed (selector query per series, recovered block files, .mnm, meta entries),
         ingested into, crashed and restarted again.  Also: crash states of the RECOVERY run itself, ingest before recovery
         (the real server accepts ingest while recovery runs), WAL-file rotation up to index >= 10.
+        (e2e, shards) spec/WALShards.tla: N per-shard logs appended concurrently share nothing; bound by one goroutine per
+        metrics segment ingesting through the real handler with size-triggered appends + the flusher running meanwhile, then every
+        log read back with the real iterator, crash, restart, recovery: each shard replays exactly ITS OWN appends.
 """
 import json
 import os
@@ -52,7 +55,11 @@ MANIFEST = dict(
           "real Recover* functions: datapoints, metric names and meta entries whose log append (and the tags tree / meta entry a "
           "selector query needs) had completed must come back bit-exact and exactly once, nothing that was never put may appear, "
           "a further ingest + crash + restart must neither double nor lose them. The recovery run itself is crash-enumerated the "
-          "same way, ingest before recovery and log-file indexes >= 10 are exercised."),
+          "same way, ingest before recovery and log-file indexes >= 10 are exercised. spec/WALShards.tla composes N per-shard logs "
+          "appended concurrently (they share nothing; each replays a prefix of ITS OWN appends) and is bound by a concurrent scenario: "
+          "one goroutine per metrics segment ingests through the real handler at a rate that makes the ingest goroutines append, "
+          "the flusher runs meanwhile, then every log is read back with the real iterator and the process is crashed, restarted and "
+          "recovered; every datapoint carries its shard and position in value and timestamp."),
     note=("Process-crash model (completed system calls persist, no torn write, no power loss). Crash points are those of the "
           "recorded schedules. Length fields that make the reader allocate more than 32 MiB are executed for a sample only (1 ms per "
           "MiB). One tenant; the tags tree is not a log: a crash inside its truncate-then-write flush is treated as 'series may be "
